@@ -283,6 +283,9 @@ fn catalogue(base: &str) -> Arc<Catalogue> {
 const ELEM_FAULTS: [&str; 4] = ["delete_element", "duplicate_element", "empty_element", "swap_with_next_sibling"];
 const ATTR_FAULTS: [&str; 3] = ["delete_attribute", "empty_attribute_value", "swap_attribute_values"];
 const TEXT_FAULTS: [&str; 2] = ["delete_text", "swap_text_with_next"];
+/// Odd but well-formed attribute values and text contents (content faults: the element stays, what it says changes).
+const ODD_VALUES: [&str; 7] = ["#", " ", "\u{e9}\u{4e2d}", "0", "true", "a b:c", "xxxxxxxxxxxxxxxxxxxxxxxxxxxxxxxxxxxxxxxxxxxxxxxxxxxxxxxxxxxxxxxxxxxxxxxxxxxxxxxxxxxxxxxxxxxxxxxxxxxxxxxxxxxxxxxxxxxxxxxxxxxxxxxxxxxxxxxxxxxxxxxxxxxxxxxxxxxxxxxxxxxxxxxxxxxxxxxxxxxxxxxxxxxxxxxxxxxxxxxxxxxxxxxxxxxxxxxxxxxxxxxxxxxxxxxxxxxxxxxxxxxxxxxxxxxxxxxxxxxxxxxxxxxx"];
+const ODD_TEXTS: [&str; 8] = ["(", "1 / 0", "x y z", "[1..", "function() 1", "null", "\"unterminated", "-"];
 
 /// All single structural faults of a base text: (kind, index, variant).
 fn single_faults(cat: &Catalogue) -> Vec<(String, usize, usize)> {
@@ -322,6 +325,12 @@ fn single_faults(cat: &Catalogue) -> Vec<(String, usize, usize)> {
       }
       out.push((f.to_string(), i, 0));
     }
+    // diagram attributes are never read: odd values there would only inflate the count
+    if !cat.attrs[i].owner_tag.starts_with("DMN") && cat.attrs[i].owner_tag != "Bounds" && cat.attrs[i].owner_tag != "waypoint" && cat.attrs[i].owner_tag != "Size" {
+      for v in 0..ODD_VALUES.len() {
+        out.push(("odd_attribute_value".to_string(), i, v));
+      }
+    }
   }
   for i in 0..cat.texts.len() {
     for f in TEXT_FAULTS {
@@ -329,6 +338,11 @@ fn single_faults(cat: &Catalogue) -> Vec<(String, usize, usize)> {
         continue;
       }
       out.push((f.to_string(), i, 0));
+    }
+    if cat.texts[i].parent_tag == "text" || cat.texts[i].parent_tag == "typeRef" {
+      for v in 0..ODD_TEXTS.len() {
+        out.push(("odd_text".to_string(), i, v));
+      }
     }
   }
   out
@@ -377,6 +391,14 @@ fn edits_of(cat: &Catalogue, kind: &str, index: usize, variant: usize) -> Option
       let a = cat.attrs.get(index)?;
       let (s, e) = a.next_value?;
       Some((vec![(a.vstart, a.vend, t[s..e].to_vec()), (s, e, t[a.vstart..a.vend].to_vec())], format!("{}@{}", a.owner_tag, a.name)))
+    }
+    "odd_attribute_value" => {
+      let a = cat.attrs.get(index)?;
+      Some((vec![(a.vstart, a.vend, ODD_VALUES[variant % ODD_VALUES.len()].as_bytes().to_vec())], format!("{}@{}", a.owner_tag, a.name)))
+    }
+    "odd_text" => {
+      let x = cat.texts.get(index)?;
+      Some((vec![(x.start, x.end, ODD_TEXTS[variant % ODD_TEXTS.len()].replace('<', "&lt;").into_bytes())], format!("{}#text", x.parent_tag)))
     }
     "delete_text" => {
       let x = cat.texts.get(index)?;
@@ -721,6 +743,19 @@ fn direct_path(text: &str, base: &str, desc: &str, only: Option<(&str, usize)>, 
   Ok("evaluated")
 }
 
+/// Percent-encodes a path segment (everything but unreserved characters).
+fn percent_encode(segment: &str) -> String {
+  let mut out = String::new();
+  for b in segment.bytes() {
+    if b.is_ascii_alphanumeric() || matches!(b, b'-' | b'.' | b'_' | b'~') {
+      out.push(b as char);
+    } else {
+      out.push_str(&format!("%{:02X}", b));
+    }
+  }
+  out
+}
+
 fn http_call(app: &mut Box<dyn crate::http::AppService>, method: &str, path: &str, ct: Option<&str>, body: Vec<u8>) -> Result<crate::http::Resp, String> {
   let st = Rc::new(RefCell::new(BodyState::default()));
   st.borrow_mut().chunks.push_back(body.clone());
@@ -794,7 +829,7 @@ fn system_path(bytes: &[u8], base: &str, desc: &str, c: &mut Counters) -> Result
       if model_name.contains('/') || inv.contains('/') || model_name.is_empty() || inv.is_empty() {
         continue;
       }
-      let path = format!("/evaluate/{}/{}", model_name.replace(' ', "%20"), inv.replace(' ', "%20"));
+      let path = format!("/evaluate/{}/{}", percent_encode(&model_name), percent_encode(&inv));
       for input in inputs.iter().take(2) {
         steps.push((format!("evaluate {}", inv), "POST", path.clone(), None, input.to_string().into_bytes()));
       }
@@ -1036,7 +1071,7 @@ impl Sim for C12 {
     parr(plan, "faults").iter().any(|f| edits_of(&catalogue(pstr(plan, "base")), pstr(f, "kind"), pu64(f, "index") as usize, pu64(f, "variant") as usize).is_none())
   }
   fn rule_text(&self) -> String {
-    "cases = (base model text, fault list): every single structural fault (delete / duplicate / empty / swap an element, delete / empty / swap attribute values, delete / swap text nodes, retarget every href to a missing element, to its own owner and to each element requiring the owner within 3 steps, retarget item definition typeRefs to their own definition and to their referrers) at every position of every .dmn file under examples/src plus the simulator's models - all of them in the thorough tier, every reference fault plus a seeded one-in-3 stratified sample of the rest in the quick tier - then seeded pairs and storage faults (truncate, lost write, bit/burst flips, dropped/duplicated/swapped 64-byte blocks, foreign block spliced in, invalid UTF-8), then seeded cases through the directory-load and HTTP paths; distinct = distinct faulted texts (hash); non-trivial = the fault changed the text".to_string()
+    "cases = (base model text, fault list): every single structural fault (delete / duplicate / empty / swap an element, delete / empty / swap attribute values, 7 odd values per model attribute, delete / swap text nodes, 8 odd contents per FEEL text and typeRef, retarget every href to a missing element, to its own owner and to each element requiring the owner within 3 steps, retarget item definition typeRefs to their own definition and to their referrers) at every position of every .dmn file under examples/src plus the simulator's models - all of them in the thorough tier, every reference fault plus a seeded one-in-3 stratified sample of the rest in the quick tier - then seeded pairs and storage faults (truncate, lost write, bit/burst flips, dropped/duplicated/swapped 64-byte blocks, foreign block spliced in, invalid UTF-8), then seeded cases through the directory-load and HTTP paths; distinct = distinct faulted texts (hash); non-trivial = the fault changed the text".to_string()
   }
   fn assumptions(&self) -> Vec<String> {
     vec![
